@@ -31,6 +31,9 @@ CLAIMED = {
  'C13': (TV, 'relational translation validation per enumerated history: evolved OCP vs fresh OCP with the final specification, rows/objective proven equal by z3; x0, p, iteration limit compared (ground)',
          'Histories over 13 public operations (queries, solve_limited, set_value, set_initial, subject_to, clear_constraints, add_objective, method, solver, set_T, set_t0) after an initial transcription are enumerated (length<=2 exhaustively, length 3 sampled); for each the evolved OCP and a fresh OCP declared with the final specification are transcribed by the real code and their complete row multisets/objectives are proven equal for all decision vectors; starting point, parameter vector, declared lists and the solver iteration limit in effect are compared; an edit may be honoured or raise, never be silently ignored.',
          'Histories are enumerated, not symbolic. Variable correspondence by creation order.', '3/C13'),
+ 'C18': (TV, 'relational translation validation: Ocp.load(save(ocp)) vs the original, both transcribed by the real code, rows/objective proven equal by z3; settings and accessors compared (ground)',
+         'For every enumerated feature-rich OCP x method x save moment: complete row multiset and objective of the loaded OCP equal those of the original for all decision vectors; starting point, parameter values, method class/settings, solver name/options, accessor lists (order, shapes) equal; quantities sampled through the loaded OCP\'s own accessors are the same; the original is undamaged by save (transcribes to the same NLP).',
+         'Variable correspondence by creation order; single-stage OCPs (multi-stage in C12).', '3/C18'),
 }
 NA = {p: 'check not built yet in this round (see DESIGN.md section 3 for the plan)' for p in
       ['C02','C03','C04','C05','C06','C07','C08','C09','C10','C11','C12','C13','C14','C15','C16','C17','C18','C19']}
